@@ -385,3 +385,42 @@ Theorem C20_orphans_tagged_with_previous_checkpoint_refuted :
   x_outcome false false x_hist_prev 4 = Some ([1; 3; 5], FPVal 3, true, true, true).
 Proof. exact checkpoint_write_prev_refuted. Qed.
 Print Assumptions C20_orphans_tagged_with_previous_checkpoint_refuted.
+
+(** *** The leaf side: leaf / leaf_delete / leaf_orphan rows and the leaf pruner (V2Leaves.v:
+    sqlite_batch.go saveLeaves, tree.go addOrphan / addDelete / nextLeafNodeKey, sqlite_writer.go
+    leafLoop with its checkpoint-aligned bound, sqlite.go replayChangelog).  A leaf_orphan row
+    means exactly the lifetime of the leaf; after any history of versions and deletions the rows
+    a replay from any retained checkpoint to any later version reads are exactly those of the
+    uninterrupted run, and every leaf that is current in a retained version is still stored.
+    Exactness is refuted for the code as it is (removed leaves are never recorded as orphans:
+    their rows stay; a leak) - V2LeavesFacts.prune_leaves_exact_refuted - and the seeded
+    unaligned bound (C20c) loses rows a retained version needs
+    (V2LeavesFacts.leaf_prune_unaligned_refuted).  Modelled for heightFilter > 0. *)
+From IAVL Require Import V2Leaves V2LeavesFacts.
+
+Theorem C20_leaf_orphans_sound :
+  forall (H : bytes -> bytes) (interval : Z) (hist : list hstep) (s : lstate) (tr : ltrace)
+         (nk : nkey2) (at_ : Z),
+    ls_run_tr H false interval (ls_empty, []) hist = Some (s, tr) ->
+    In (nk, at_) (lorphans (ls_store s)) ->
+    (fst nk < at_ /\ at_ <= ls_version s) /\
+    (forall (w : Z) (c : cur_t), In (w, c) tr -> fst nk <= w /\ w < at_ -> In nk (cur_keys c)) /\
+    (forall (w : Z) (c : cur_t), In (w, c) tr -> at_ <= w -> ~ In nk (cur_keys c)).
+Proof. exact leaf_orphans_sound. Qed.
+Print Assumptions C20_leaf_orphans_sound.
+
+Theorem C20_leaf_prune_keeps_replay :
+  forall (H : bytes -> bytes) (interval : Z) (hist : list hstep) (s0 : lstate) (tr : ltrace)
+         (n c : Z) (st' : lstore),
+    ls_run_tr H false interval (ls_empty, []) hist = Some (s0, tr) ->
+    find_previous (ls_ckpts s0) n = FPVal c ->
+    prune_leaves (ls_ckpts s0) (ls_store s0) n = Some st' ->
+    exists sf : lstate,
+      ls_run_tr H false interval (ls_empty, []) (no_prunes hist) = Some (sf, tr) /\
+      (forall c' t : Z, Z.max (ls_floor s0) c <= c' -> replay st' c' t = replay (ls_store sf) c' t) /\
+      (forall (w : Z) (cur : cur_t) (k : bytes) (nk : nkey2) (v : bytes),
+         In (w, cur) tr -> Z.max (ls_floor s0) c <= w -> In (k, (nk, v)) cur ->
+         get_leaf nk (leaves st') =
+         Some {| lr_key := k; lr_val := v; lr_hash := H (leaf_preimage H (fst nk) k v) |}).
+Proof. exact prune_leaves_keeps_replay_last. Qed.
+Print Assumptions C20_leaf_prune_keeps_replay.
